@@ -89,6 +89,11 @@ class Vector:
         """
         self._tree = tree
 
+    # Make NumPy scalars and arrays on the left-hand side of a binary operation
+    # defer to the reflected operators of this class instead of treating the
+    # vector as a sequence
+    __array_ufunc__ = None
+
     def tree_flatten(self):
         return ((self._tree,), None)
 
